@@ -4735,7 +4735,14 @@ func c17RuleC(c *Ctx, writesV map[*types.Func]bool) {
 		}
 	}
 	if !shapeKnown {
-		c.undecided(rule, he.Name+"/change check", he.Decl.Pos(), "no return of HandleEvent passes a snapshot of Value to a change-check function: the notification shape is not recognised")
+		if fld, at := c17LossySnapshot(c, he, info, pk.Types, tfT, valueF, muts); fld != "" {
+			// the snapshot handed to the function the edits return through is a projection of the line (the cached
+			// grapheme count, the cursor index): two different values of the line share it, so no comparison against
+			// it can fire "exactly when the value changes"
+			c.bad(rule, he.Name+"/change check", at, "the edits of HandleEvent return through a function that is handed a snapshot of %s taken before the edit, not of Value: %s is a projection of the line (an edit that changes Value and leaves %s as it was - typed text that joins the grapheme before the cursor - is indistinguishable from no edit), so OnChange cannot fire exactly when the value changes", fld, fld, fld)
+		} else {
+			c.undecided(rule, he.Name+"/change check", he.Decl.Pos(), "no return of HandleEvent passes a snapshot of Value to a change-check function: the notification shape is not recognised")
+		}
 		muts = nil
 	}
 	for _, h := range muts {
@@ -4883,6 +4890,100 @@ func c17RuleC(c *Ctx, writesV map[*types.Func]bool) {
 	if nArm == 0 || len(submitCalls) == 0 {
 		c.bad(rule, he.Name+"/Enter arm calls OnSubmit", he.Decl.Pos(), "no return guarded by Matches(KeyEnter) calls OnSubmit (%d returns in the arm, %d OnSubmit calls)", nArm, len(submitCalls))
 	}
+}
+
+// c17LossySnapshot: HandleEvent returns, after an edit of Value, a call of a package function whose only snapshot
+// argument is a local taken BEFORE that edit from one of the receiver's integer bookkeeping fields of the
+// property's state (the cached grapheme count n, the cursor index), and no argument carries the old Value (no
+// string-typed argument at all). Such a function sees the new state and an integer about the old one; since
+// Value -> n and Value -> cursor are many-to-one, it cannot tell every change from no change. Returns the field
+// expression text and the position of the snapshot ("" when the shape is not this one).
+func c17LossySnapshot(c *Ctx, he *FuncInfo, info *types.Info, pkT *types.Package, tfT types.Type, valueF *types.Var, muts []Hit) (string, token.Pos) {
+	g := c.P.Graph(he)
+	proj := map[*types.Var]bool{}
+	for _, name := range []string{"n", "cursor"} {
+		if f := c17StructField(tfT, name); f != nil {
+			if b, ok := f.Type().Underlying().(*types.Basic); ok && b.Info()&types.IsInteger != 0 {
+				proj[f] = true
+			}
+		}
+	}
+	if len(proj) == 0 {
+		return "", token.NoPos
+	}
+	// locals defined once, from a projection field of the receiver
+	type def struct {
+		hit Hit
+		txt string
+	}
+	defs := map[types.Object]def{}
+	nDef := map[types.Object]int{}
+	for _, h := range g.Find(func(n ast.Node) bool { _, ok := n.(*ast.AssignStmt); return ok }) {
+		as := h.Node.(*ast.AssignStmt)
+		for i, l := range as.Lhs {
+			id, ok := l.(*ast.Ident)
+			if !ok {
+				continue
+			}
+			o := info.ObjectOf(id)
+			if o == nil {
+				continue
+			}
+			nDef[o]++
+			if len(as.Lhs) != len(as.Rhs) {
+				continue
+			}
+			for f := range proj {
+				if c17FieldOf(info, c17StripConv(info, as.Rhs[i]), f) != nil {
+					defs[o] = def{h, types.ExprString(c17StripConv(info, as.Rhs[i]))}
+				}
+			}
+		}
+	}
+	for _, h := range g.Find(func(n ast.Node) bool { _, ok := n.(*ast.ReturnStmt); return ok }) {
+		rs := h.Node.(*ast.ReturnStmt)
+		if len(rs.Results) != 1 {
+			continue
+		}
+		call, ok := unparen(rs.Results[0]).(*ast.CallExpr)
+		if !ok {
+			continue
+		}
+		fn := calleeOf(info, call)
+		if fn == nil || fn.Pkg() != pkT {
+			continue
+		}
+		var hitDef *def
+		carriesString := false
+		for _, a := range call.Args {
+			if tv, ok := info.Types[a]; ok && tv.Type != nil {
+				if b, ok := tv.Type.Underlying().(*types.Basic); ok && b.Info()&types.IsString != 0 {
+					carriesString = true
+				}
+			}
+			if id, ok := unparen(a).(*ast.Ident); ok {
+				if o := info.ObjectOf(id); o != nil && nDef[o] == 1 {
+					if d, ok := defs[o]; ok {
+						d := d
+						hitDef = &d
+					}
+				}
+			}
+		}
+		if hitDef == nil || carriesString {
+			continue
+		}
+		// the snapshot is taken before an edit that this return follows
+		for _, mu := range muts {
+			if g.ReachesAvoiding(hitDef.hit.Loc, mu.Loc, nil) && g.ReachesAvoiding(mu.Loc, h.Loc, nil) {
+				return hitDef.txt, hitDef.hit.Node.Pos()
+			}
+			if hitDef.hit.B == mu.B && mu.B == h.B && hitDef.hit.Idx < mu.Idx && mu.Idx < h.Idx {
+				return hitDef.txt, hitDef.hit.Node.Pos()
+			}
+		}
+	}
+	return "", token.NoPos
 }
 
 func c17StmtOrCall(info *types.Info, n ast.Node) string {
